@@ -422,6 +422,14 @@ class ConvGeneralDilatedPlugin(PrimitiveLeafPlugin):
         lhs_dilation = params.get("lhs_dilation")
         is_transpose = lhs_dilation and any(d > 1 for d in lhs_dilation)
         op_type = "ConvTranspose" if is_transpose else "Conv"
+        if is_transpose:
+            # The input dilation of conv_general_dilated is the stride of ONNX ConvTranspose.
+            if any(int(s) != 1 for s in strides):
+                raise NotImplementedError(
+                    "conv_general_dilated with lhs_dilation and window_strides "
+                    "other than 1 is not supported"
+                )
+            conv_kwargs["strides"] = [int(d) for d in lhs_dilation]
         target_input_layout = _canonical_input_layout(lhs_layout)
         target_kernel_layout = _canonical_kernel_layout(
             rhs_layout, is_transpose=bool(is_transpose)
